@@ -122,8 +122,8 @@ C["string"] = ("r", """
         old(self).limit is None ==> final(self).limit is None,""")
 
 
-def typed_contract(T, is_mask, errvar):
-    val = "v.bits_" if is_mask else "v as u32"
+def typed_contract(T, is_mask, errvar, enum_num=None):
+    val = "v.bits_" if is_mask else (enum_num(T) if enum_num else "v as u32")
     known = ("(w & !spirv::%s::all_bits() == 0)" % T) if is_mask else ("spirv::declared_%s(w)" % T)
     return """
     requires old(self).wf(),
@@ -380,7 +380,7 @@ def build(tier="quick", must_fail=False):
     return g
 
 
-def emit_stubs(g):
+def emit_stubs(g, enum_num=None):
     """`mod decoder` with every Decoder method contract-only (external_body), same contracts as this
     unit proves on the real bodies — for units that call the decoder (parser_core)."""
     g.raw("pub mod autogen_error {\nuse vstd::prelude::*;\nuse crate::spirv;")
@@ -412,7 +412,7 @@ def emit_stubs(g):
     for f, T, is_mask, errvar in typed_requests():
         sig = f.core_text[:f.body_open - f.head_start].rstrip()
         sig = re.sub(r"->\s*(.+)$", lambda m: "-> (r: %s)" % m.group(1).strip(), sig, flags=re.S)
-        g.raw("#[verifier::external_body]\n%s\n%s\n{ unimplemented!() }" % (sig, typed_contract(T, is_mask, errvar).strip("\n")))
+        g.raw("#[verifier::external_body]\n%s\n%s\n{ unimplemented!() }" % (sig, typed_contract(T, is_mask, errvar, enum_num).strip("\n")))
     g.raw("}")
     g.raw("} // mod decoder")
 
